@@ -1418,6 +1418,24 @@ ctl('e7-join-notfound-for-live-session', 'C07', 'B4', RT,
     """	session, ok := h.Sessions.GetByGlobalID(req.SessionId)
 	if (!ok || len(req.SessionId) > 12) && req.SessionId != "" {""", 'HandleParticipantJoin')
 
+# ---- round-5 seeds: swapped ids, copied lock, lost frame-cancel function
+ctl('b10-unsubscribe-args-swapped', 'C13', 'B10', RT,
+    """	session.GetEntityComponents().Unsubscribe(req.EntityComponentTypeId, participant.ID)""",
+    """	session.GetEntityComponents().Unsubscribe(participant.ID, req.EntityComponentTypeId)""",
+    'HandleEntityComponentUnsubscribe:EntityComponentStore.Unsubscribe(arg 0)')
+ctl('f6c-value-receiver-copies-mutex', 'C09', 'F6c', 'modules/dagaz/state.go',
+    """func (s *State) debugInfo() SpatialDebugInfo {""",
+    """func (s State) debugInfo() SpatialDebugInfo {""",
+    'debugInfo:receiver')
+ctl('e6-frame-cancel-overwritten', 'C08', 'E6', RT,
+    """	h.currentSession = session
+	h.currentParticipant = participant
+""",
+    """	h.currentSession = session
+	h.currentParticipant = participant
+	h.stopFrameHandling = nil
+""", 'HandleParticipantJoin:registers-frame-callback')
+
 os.makedirs(OUT, exist_ok=True)
 bad = 0
 names = set()
